@@ -101,11 +101,23 @@ def base_specs(ctx, out):
             if e["t"] == "attach":
                 continue
             specs.append({"id": "g%d.%d" % (si, ei), "revs": list(p) + [e], "declined": ["11=b"]})
+    # the same events on the two subclasses, whose role is fixed at construction (client: INITIATOR, dummy server: ACCEPTOR)
+    for si, p in enumerate(paths):
+        if len(p) > (3 if q else 5):
+            continue
+        for ei, e in enumerate(alpha):
+            if e["t"] == "attach":
+                continue
+            for cl in ("server", "client"):
+                specs.append({"id": "g%d.%d.%s" % (si, ei, cl), "revs": list(p) + [e], "declined": ["11=b"], "cls": cl})
     ngraph = len(specs)
     rng = random.Random(ctx.seed * 1009 + 4)
     nr = 1500 if q else 25000
     for i in range(nr):
-        specs.append(random_walk(rng, alpha, "w%d" % i, rng.randint(4, 40)))
+        sp = random_walk(rng, alpha, "w%d" % i, rng.randint(4, 40))
+        if i % 3:
+            sp["cls"] = ("server", "client")[i % 3 - 1]
+        specs.append(sp)
     out.extra.update({"model_states_replayed": len(paths), "alphabet": len(alpha), "graph_traces": ngraph,
                       "random_walks": nr, "bounds": {"design_depth": depth_mc, "replay_depth": depth_dump, "MaxN": 14}})
     return specs
